@@ -161,7 +161,13 @@ func (d *Decimal) setString(c *Context, s string) (Condition, error) {
 	}
 	// No parse errors, can now flag as finite.
 	d.Form = Finite
-	return c.goError(d.setExponent(c, unknownNumDigits, 0, exps...))
+	// Only the sum of the written exponent and the shift caused by the decimal
+	// point has to be within the exponent limits, not each of them.
+	var exp int64
+	for _, e := range exps {
+		exp += e
+	}
+	return c.goError(d.setExponent(c, unknownNumDigits, 0, exp))
 }
 
 // NewFromString creates a new decimal from s. It has no restrictions on
